@@ -520,9 +520,17 @@ pub async fn run(cx: &mut Ctx) {
                             _ => {}
                         }
                         // and against the model (acknowledged prefix)
-                        if let (Some(a), Some(w)) = (a, model.tables.get(n)) {
-                            if b.is_some() && multiset_diff(a, &w.1).is_some() && multiset_diff(b.as_ref().unwrap(), &w.1).is_none() {
-                                // already reported above as rows-changed
+                        if let (Some(a), Some(b), Some(w)) = (a, b, model.tables.get(n)) {
+                            // (a difference between before and after is reported above)
+                            if multiset_diff(a, b).is_none() {
+                                if let Some(d) = multiset_diff(a, &w.1) {
+                                    cx.violate(Violation::new(
+                                        "C03",
+                                        "rows-differ-from-acknowledged-history",
+                                        Some(i),
+                                        format!("after reopen, table {n}: {d} (the same before shutdown)"),
+                                    ));
+                                }
                             }
                         }
                     }
